@@ -255,6 +255,12 @@ func (s *Synchronizer) isReverting(
 		return 0, false
 	}
 
+	// The remote block at remoteHeight differs from ours, so nothing above remoteHeight-1 can be
+	// valid. At height 0 there is no such height: report 0 (the genesis is then re-checked by hash
+	// in revertTask) instead of wrapping around.
+	if remoteHeight == 0 {
+		return 0, true
+	}
 	return remoteHeight - 1, true
 }
 
